@@ -326,6 +326,188 @@ impl PoolRun {
     }
 }
 
+
+/// Stack of the thread the deep-chain cases run on: that of a tokio worker thread (2 MiB by default), which is where
+/// a node runs the pool. The ancestor walk of the tracker is recursive; a stack overflow is not a panic (the process
+/// aborts), so the depth the cases use must fit - see notes/C08.md for the measured limit.
+const WORKER_STACK: usize = 2 << 20;
+
+fn on_worker_stack<R: Send>(f: impl FnOnce() -> R + Send) -> R {
+    std::thread::scope(|s| std::thread::Builder::new().stack_size(WORKER_STACK).spawn_scoped(s, f).expect("spawn thread").join().expect("deep-chain thread"))
+}
+
+/// One chain of `depth` blocks from genesis (slots mostly consecutive, a few gaps), hash id = 10 * slot + 1.
+fn deep_chain(rng: &mut Rng, depth: usize) -> Vec<B> {
+    let mut chain: Vec<B> = Vec::with_capacity(depth);
+    let mut s = 0u64;
+    for _ in 0..depth {
+        s += if rng.chance(1, 12) { rng.range(2, 3) } else { 1 };
+        chain.push((s, 10 * s + 1));
+    }
+    chain
+}
+
+/// the ops of a deep-chain history: all parent links of the chain registered while nothing is finalized, then one
+/// finalization at the top (variants: see the call site); `hold` = index of a link that is delivered only at the end
+fn deep_chain_ops(rng: &mut Rng, chain: &[B], variant: usize) -> (Vec<FOp>, Option<usize>) {
+    let d = chain.len();
+    let top = chain[d - 1];
+    let link = |i: usize| FOp::Parent(chain[i], if i == 0 { (0, 0) } else { chain[i - 1] });
+    let mut links: Vec<FOp> = (0..d).map(link).collect();
+    // a few notarizations of chain blocks below the top (certificates a node holds for a notarized-only chain)
+    let notars: Vec<FOp> = (0..d - 1).filter(|_| rng.chance(1, 10)).map(|i| FOp::Notar(chain[i])).collect();
+    let fin_top = |rng: &mut Rng| if rng.chance(1, 2) { vec![FOp::FastFinal(top)] } else if rng.chance(1, 2) { vec![FOp::Notar(top), FOp::Final(top.0)] } else { vec![FOp::Final(top.0), FOp::Notar(top)] };
+    let mut ops = Vec::new();
+    let mut hold = None;
+    match variant {
+        // links bottom-up (the order blocks are received), then the finalization
+        0 => { ops.extend(links); ops.extend(notars); ops.extend(fin_top(rng)); }
+        // links top-down
+        1 => { links.reverse(); ops.extend(notars); ops.extend(links); ops.extend(fin_top(rng)); }
+        // links and notarizations in random order
+        2 => { links.extend(notars); rng.shuffle(&mut links); ops.extend(links); ops.extend(fin_top(rng)); }
+        // the finalization first, then the links bottom-up: the top's own link arrives last and starts the walk
+        3 => { ops.extend(fin_top(rng)); ops.extend(notars); ops.extend(links); }
+        // one link in the middle is known only after the finalization: two walks, the second started by add_parent
+        _ => {
+            let h = d / 2 + rng.below(8) as usize;
+            hold = Some(h);
+            let held = links.remove(h);
+            rng.shuffle(&mut links);
+            ops.extend(links);
+            ops.extend(notars);
+            ops.extend(fin_top(rng));
+            ops.push(held);
+        }
+    }
+    (ops, hold)
+}
+
+/// Deep-chain case on the real `FinalityTracker` (oracle only: the per-step state lines are O(depth) each, so the ops
+/// are not written to the compared stream). The oracle is the one of `FinCase::apply`, evaluated after every op that
+/// reported something and at the end: reports == direct finalizations + ancestor closure over the known links, each
+/// once; implicit skips exact; watermark == end of the decided prefix; nothing retained below it.
+fn fin_deep_case(rec: &mut Recorder, rng: &mut Rng, depth: usize, variant: usize) {
+    rec.begin_case(&format!("fin-deep v{variant}"));
+    let chain = deep_chain(rng, depth);
+    let (ops, hold) = deep_chain_ops(rng, &chain, variant);
+    let top = chain[depth - 1];
+    let desc = format!("deep chain of {depth} blocks (slots 1..={}, every parent link registered, variant {variant}{})", top.0, hold.map(|h| format!(", link of block {:?} delivered last", chain[h])).unwrap_or_default());
+    let class = on_worker_stack(|| {
+        let mut t = VerifFinalityTracker::default();
+        let mut spec = Spec::default();
+        let (mut cum_fin, mut cum_ifin, mut cum_iskip): (Vec<B>, Vec<B>, Vec<u64>) = (vec![], vec![], vec![]);
+        let mut class = 0u64;
+        let mut max_walk = 0usize;
+        for (k, op) in ops.iter().enumerate() {
+            let line = op.line();
+            spec.add(op);
+            let res = catch(|| match op {
+                FOp::Parent(b, p) => t.add_parent(bid(*b), bid(*p)),
+                FOp::FastFinal(b) => t.mark_fast_finalized(bid(*b)),
+                FOp::Notar(b) => t.mark_notarized(bid(*b)),
+                FOp::Final(s) => t.mark_finalized(Slot::new(*s)),
+            });
+            let ev = match res {
+                Err(msg) => {
+                    rec.count("fin-deep:panic");
+                    rec.oracle(false, "fin-panic-on-consistent-input", || format!("{desc}: op {k} `{line}`: tracker panicked ({msg})"));
+                    return fnv(class, "panic");
+                }
+                Ok(ev) => ev_plain(&ev),
+            };
+            let reported = ev.fin.is_some() || !ev.ifin.is_empty() || !ev.iskip.is_empty();
+            max_walk = max_walk.max(ev.ifin.len());
+            if let Some(b) = ev.fin { cum_fin.push(b); }
+            cum_ifin.extend(ev.ifin.iter().copied());
+            cum_iskip.extend(ev.iskip.iter().copied());
+            if !reported && k + 1 != ops.len() {
+                continue;
+            }
+            class = fnv(class, &format!("{}{}{}", ev.fin.is_some() as u8, ev.ifin.len().min(3), ev.iskip.len().min(3)));
+            let v = spec.view();
+            let hi = t.highest_finalized_slot().inner();
+            let fu = t.first_unpruned_slot().inner();
+            let mut rep: Vec<B> = cum_fin.iter().chain(cum_ifin.iter()).copied().collect();
+            let n_rep = rep.len();
+            rep.sort();
+            rep.dedup();
+            rec.oracle(rep.len() == n_rep, "fin-reported-twice", || format!("{desc}: after op {k} `{line}` a block was reported finalized more than once"));
+            let repset: BTreeSet<B> = rep.iter().copied().filter(|b| *b != (0, 0)).collect();
+            let want: BTreeSet<B> = v.final_star.iter().copied().filter(|b| *b != (0, 0)).collect();
+            rec.oracle(repset == want, "fin-reports-not-exact", || {
+                let missing: Vec<&B> = want.difference(&repset).collect();
+                let extra: Vec<&B> = repset.difference(&want).collect();
+                format!("{desc}: after op {k} `{line}`: {} blocks reported finalized, the certificates and known parent links imply {}; {} ancestors never reported (lowest {:?}, highest {:?}), {} reported without justification", repset.len(), want.len(), missing.len(), missing.first(), missing.last(), extra.len())
+            });
+            let skset: BTreeSet<u64> = cum_iskip.iter().copied().collect();
+            rec.oracle(skset == v.impl_skipped && skset.len() == cum_iskip.len(), "fin-skips-not-exact", || format!("{desc}: after op {k} `{line}`: {} implicit skips reported, {} implied", cum_iskip.len(), v.impl_skipped.len()));
+            rec.oracle(hi == v.highest, "fin-highest-wrong", || format!("{desc}: after op {k} `{line}`: highest finalized {hi}, certificates say {}", v.highest));
+            rec.oracle(fu == v.watermark, "fin-watermark-wrong", || format!("{desc}: after op {k} `{line}`: watermark {fu} but the decided prefix ends at {}", v.watermark));
+            let low_st = t.status().iter().map(|e| e.0.inner()).min();
+            let low_par = t.parents().iter().map(|e| e.0.0.inner()).min();
+            rec.oracle(low_st.is_none_or(|l| l >= fu) && low_par.is_none_or(|l| l >= fu), "fin-retained-below-watermark", || format!("{desc}: after op {k} `{line}`: status kept from slot {low_st:?}, links from slot {low_par:?}, watermark {fu}"));
+            // retained state proportional to the undecided suffix: everything decided is gone
+            let n_ret = t.status().len() + t.parents().len();
+            let suffix = (top.0 + 1).saturating_sub(v.watermark) as usize;
+            rec.oracle(n_ret <= 2 * suffix + 2, "fin-retained-not-proportional", || format!("{desc}: after op {k} `{line}`: {n_ret} retained entries, undecided suffix {suffix} slots (decided prefix ends at {})", v.watermark));
+        }
+        // at the end everything is decided
+        let fu = t.first_unpruned_slot().inner();
+        rec.oracle(fu == top.0 && cum_ifin.len() + 1 >= depth, "fin-deep-not-resolved", || format!("{desc}: at the end the watermark is {fu} and {} ancestors were reported (generator: expected {} and {})", cum_ifin.len(), top.0, depth - 1));
+        rec.count(&format!("fin-deep:longest-walk>1024={}", max_walk > 1024));
+        class
+    });
+    rec.end_case(class, true);
+}
+
+/// The same deep chain through a real `PoolImpl`: `add_block` for every block (nothing certified), then one
+/// fast-finalization certificate for the top. Afterwards the pool must have reported every ancestor, its watermark must
+/// be the top slot, nothing older may be retained and a certificate for an old slot must be refused.
+fn pool_deep_case(rec: &mut Recorder, rng: &mut Rng, rt: &tokio::runtime::Runtime, f: &mut CertFactory, depth: usize) {
+    rec.begin_case("pool-deep");
+    let chain = deep_chain(rng, depth);
+    let top = chain[depth - 1];
+    let desc = format!("pool: deep chain of {depth} blocks (slots 1..={}) delivered with add_block bottom-up, then a fast-final certificate for the top", top.0);
+    let probe = chain[rng.below(depth as u64 / 2) as usize];
+    on_worker_stack(|| {
+        let mut c = PoolCase::new(f);
+        for i in 0..depth {
+            let out = c.apply_quiet(rt, f, &POp::Block(chain[i], if i == 0 { (0, 0) } else { chain[i - 1] }));
+            if out.verdict == "panic" {
+                rec.oracle(false, "pool-panic", || format!("{desc}: add_block of block {i} panicked"));
+                return;
+            }
+        }
+        let out = c.apply_quiet(rt, f, &POp::Cert(CK::FF, top.0, top.1));
+        rec.oracle(out.verdict == "ok", "pool-panic", || format!("{desc}: the certificate was answered `{}`", out.verdict));
+        if out.verdict == "panic" {
+            return;
+        }
+        let log: Vec<Ev> = c.pool.verif_finalization_log().iter().map(ev_plain).collect();
+        let rep: Vec<B> = log.iter().flat_map(|e| e.fin.iter().copied().chain(e.ifin.iter().copied())).filter(|b| *b != (0, 0)).collect();
+        let repset: BTreeSet<B> = rep.iter().copied().collect();
+        let want: BTreeSet<B> = chain.iter().copied().collect();
+        rec.oracle(repset == want && rep.len() == repset.len(), "pool-reports-not-exact", || format!("{desc}: {} blocks reported finalized ({} distinct), {} implied by the certificate and the known links; lowest missing {:?}", rep.len(), repset.len(), want.len(), want.difference(&repset).next()));
+        let hi = c.pool.finalized_slot().inner();
+        let fu = c.pool.verif_first_unpruned_slot().inner();
+        rec.oracle(hi == top.0, "pool-highest-wrong", || format!("{desc}: finalized_slot() = {hi}"));
+        rec.oracle(fu == top.0, "pool-watermark-wrong", || format!("{desc}: watermark {fu}, decided prefix ends at {}", top.0));
+        let ret = c.pool.verif_retained_slots();
+        let (root, prs) = c.pool.verif_parent_ready_states();
+        let s2n = c.pool.verif_s2n_waiting();
+        let (fst, fpar) = c.pool.verif_finality_state();
+        let low = ret.iter().map(|s| s.inner()).chain(prs.iter().map(|e| e.0.inner())).chain(s2n.iter().map(|e| e.1.0.inner())).chain(fst.iter().map(|e| e.0.inner())).chain(fpar.iter().map(|e| e.0.0.inner())).min();
+        rec.oracle(low.is_none_or(|l| l >= fu) && root.inner() == fu, "pool-retains-below-watermark", || format!("{desc}: state retained for slot {low:?} (parent-ready root {}) although everything below {} is decided", root.inner(), top.0));
+        let n_ret = ret.len() + prs.len() + s2n.len() + fst.len() + fpar.len();
+        rec.oracle(n_ret <= 16, "pool-retained-not-proportional", || format!("{desc}: {n_ret} retained entries although the undecided suffix is empty"));
+        // "neither retains nor accepts anything older"
+        let late = c.apply_quiet(rt, f, &POp::Cert(CK::N, probe.0, probe.1));
+        rec.oracle(late.verdict == "oob", "pool-bounds-wrong", || format!("{desc}: afterwards a notarization certificate for the decided slot {} was answered `{}`", probe.0, late.verdict));
+    });
+    rec.end_case(fnv(0, "pool-deep"), true);
+}
+
 fn permutations<T: Clone>(xs: &[T]) -> Vec<Vec<T>> {
     if xs.len() <= 1 {
         return vec![xs.to_vec()];
@@ -499,6 +681,15 @@ fn main() {
         rec.end_case(c.class, true);
     }
 
+    // ---- shape fin-deep: > 1024 consecutive blocks, every parent link registered, nothing finalized, then one
+    // finalization at the top: every ancestor is finalized by that one event (or, variant 4, by two) and the decided
+    // prefix advances to the top. Depths just over 1024 and 1100..2500 (thorough: up to 4000).
+    let n_deep = if args.thorough { 40 } else { 6 };
+    for k in 0..n_deep {
+        let depth = if k % 6 == 5 { rng.range(1026, 1100) } else if args.thorough && k % 6 == 2 { rng.range(2500, 4000) } else { rng.range(1100, 2500) } as usize;
+        fin_deep_case(&mut rec, &mut rng, depth, k % 5);
+    }
+
     // ---- shape pool-world: worlds delivered to a real PoolImpl as certificates and blocks
     let rt = tokio::runtime::Builder::new_current_thread().build().expect("runtime");
     let mut factory = CertFactory::new();
@@ -596,6 +787,12 @@ fn main() {
             r.apply(&mut rec, &rt, &mut factory, op);
         }
         rec.end_case(r.class, true);
+    }
+
+    // ---- shape pool-deep: the deep chain through the pool
+    for _ in 0..(if args.thorough { 6 } else { 1 }) {
+        let depth = rng.range(1100, 2500) as usize;
+        pool_deep_case(&mut rec, &mut rng, &rt, &mut factory, depth);
     }
 
     rec.finish(&args, serde_json::json!({ "worlds": n_world, "perm_sets": n_sets, "chaos": n_chaos, "pool_worlds": n_pool }));
